@@ -8,7 +8,7 @@ from ..gen import J, JI
 PROP = "C12"
 MONITORS = ("WF", "SPEC", "FORM")
 REQUIRED_MONITORS = ("WF",)
-HOSTILE = ('special',)
+HOSTILE = ('special', 'scale')
 ANCHORS = [("factor.py", "ConjugateFactor.slice"), ("factor.py", "OneRankFactor.slice"),
            ("factor.py", "LinearFactor.slice"), ("factor.py", "ConstantFactor.slice"),
            ("measure.py", "GaussianMeasure.slice"), ("measure.py", "GaussianDiagMeasure.slice"),
